@@ -254,6 +254,102 @@ fn scenarios() -> Vec<(&'static str, String, String, &'static str)> {
     ]
 }
 
+/// inserts `E9% = 1 / Z9%` (Division by zero: Z9% is never assigned) at the end of blocks and at
+/// random places; returns how many were inserted
+fn insert_failing(block: &mut Vec<crate::c01::S>, rng: &mut Rng) -> usize {
+    use crate::c01::{E, EK, Lit, S, SK, bop_index, e, s};
+    let failing = || -> S {
+        let x: E = e(EK::Bin(bop_index(rusty_parser::Operator::Divide), Box::new(e(EK::Lit(Lit::Int(1)))), Box::new(e(EK::Var("Z9%".into())))));
+        s(SK::Assign("E9%".into(), x))
+    };
+    let mut n = 0;
+    for st in block.iter_mut() {
+        match &mut st.k {
+            SK::If(_, thn, elifs, els) => {
+                n += insert_failing(thn, rng);
+                for (_, b) in elifs.iter_mut() {
+                    n += insert_failing(b, rng);
+                }
+                if let Some(b) = els {
+                    n += insert_failing(b, rng);
+                }
+            }
+            SK::While(_, b) | SK::Do(_, _, _, b) | SK::For(_, _, _, _, b) => n += insert_failing(b, rng),
+            SK::Select(_, cases, els) => {
+                for (_, b) in cases.iter_mut() {
+                    n += insert_failing(b, rng);
+                }
+                if let Some(b) = els {
+                    n += insert_failing(b, rng);
+                }
+            }
+            _ => {}
+        }
+    }
+    if rng.chance(1, 2) {
+        block.push(failing());
+        n += 1;
+    }
+    if rng.chance(1, 4) {
+        let i = rng.below(block.len() as u64 + 1) as usize;
+        block.insert(i, failing());
+        n += 1;
+    }
+    n
+}
+
+/// ON ERROR RESUME NEXT around statements that fail as a whole: the program behaves as if the failing
+/// statements were not there - same output, normal end, the same stack depths at the end
+pub fn error_skip(rng: &mut Rng, n: usize, depth3: bool, sum: &mut Summary, evaluations: &mut usize) {
+    use crate::c01::{Gen, print_program};
+    let mut done = 0;
+    let mut tries = 0;
+    while done < n && tries < n * 6 {
+        tries += 1;
+        let mut g = Gen { rng: &mut *rng, loop_counter: 0 };
+        let depth = if depth3 && tries % 2 == 0 { 3 } else { 2 };
+        let mut prog = g.program(depth, 4);
+        let plain = print_program(&mut prog.clone());
+        *evaluations += 1;
+        let r0 = match run_program(&plain, &RunOpts { budget: 30_000, trace: true, ..Default::default() }) {
+            Outcome::Ran(r) if r.end == End::Ok => r,
+            _ => continue, // only programs that run without any error of their own
+        };
+        let k = insert_failing(&mut prog, rng);
+        if k == 0 {
+            continue;
+        }
+        let with_err = format!("ON ERROR RESUME NEXT\n{}", print_program(&mut prog));
+        *evaluations += 1;
+        done += 1;
+        sum.count("error_skip_programs");
+        *sum.histogram.entry("error_skip_failing_statements".into()).or_insert(0) += k as i128;
+        let one_line: String = with_err.replace('\n', " | ").chars().take(900).collect();
+        match run_program(&with_err, &RunOpts { budget: 60_000, trace: true, ..Default::default() }) {
+            Outcome::Ran(r) => {
+                if let End::Panic(m) = &r.end {
+                    sum.violation(ImplViolation { key: "error-skip:panic".into(), input: one_line, expected: "normal end".into(), observed: m.chars().take(200).collect() });
+                } else if r.end != End::Ok {
+                    sum.violation(ImplViolation { key: "error-skip:end".into(), input: one_line, expected: "normal end".into(), observed: format!("{:?}", r.end) });
+                } else if r.stdout != r0.stdout {
+                    sum.violation(ImplViolation { key: "error-skip:output".into(), input: one_line, expected: format!("{:?}", String::from_utf8_lossy(&r0.stdout)), observed: format!("{:?}", String::from_utf8_lossy(&r.stdout)) });
+                } else {
+                    let d0 = r0.trace.as_ref().and_then(|t| t.iter().rev().find(|s| s.error.is_none()).map(|s| s.depths));
+                    let d1 = r.trace.as_ref().and_then(|t| t.iter().rev().find(|s| s.error.is_none()).map(|s| s.depths));
+                    if let (Some(a), Some(b)) = (d0, d1) {
+                        if a[..6] != b[..6] {
+                            sum.violation(ImplViolation { key: "error-skip:stack-depth".into(), input: one_line, expected: format!("stack depths {:?} at the end", &a[..6]), observed: format!("{:?}", &b[..6]) });
+                        }
+                    }
+                }
+            }
+            other => {
+                sum.violation(ImplViolation { key: "error-skip:rejected".into(), input: one_line, expected: "accepted".into(), observed: format!("{:?}", other).chars().take(200).collect() });
+            }
+        }
+    }
+}
+
 fn end_text(e: &End) -> String {
     match e {
         End::Ok => "ok".into(),
@@ -390,9 +486,11 @@ pub fn run(args: &Args) {
         }
         sum.count("scenarios");
     }
+    // ---- 4. statements that fail as a whole under ON ERROR RESUME NEXT are skipped, nothing else changes
+    error_skip(&mut rng, if args.thorough() { 1500 } else { 250 }, args.thorough(), &mut sum, &mut evaluations);
     sum.write(
         &args.out,
         evaluations,
-        "value level: the real NearestStatementFinder (hook verif_nearest_statement) on random ascending address lists and addresses vs Control.find_current / find_next. Run level: generated control programs (labels, backward/forward GOTO, nested GOSUB, failing statements of six kinds at top level / last in a loop body / last in an IF or CASE block / last in a SUB / inside GOSUB routines, handlers ON ERROR GOTO / RESUME NEXT / GOTO 0 switched in all orders, RESUME / RESUME NEXT / RESUME label), procedural programs with error handlers, repository programs using GOTO/GOSUB/ON ERROR; for each run every control transfer (from the observer trace incl. the error events) is replayed by Control.check_control in Coq. Scenarios: 20 programs whose output and end are known by construction. Non-trivial = distinct event sequences.",
+        "value level: the real NearestStatementFinder (hook verif_nearest_statement) on random ascending address lists and addresses vs Control.find_current / find_next. Run level: generated control programs (labels, backward/forward GOTO, nested GOSUB, failing statements of six kinds at top level / last in a loop body / last in an IF or CASE block / last in a SUB / inside GOSUB routines, handlers ON ERROR GOTO / RESUME NEXT / GOTO 0 switched in all orders, RESUME / RESUME NEXT / RESUME label), procedural programs with error handlers, repository programs using GOTO/GOSUB/ON ERROR; for each run every control transfer (from the observer trace incl. the error events) is replayed by Control.check_control in Coq. Scenarios: 20 programs whose output and end are known by construction. Error skipping: core programs (IF/SELECT/FOR/WHILE/DO nests that run without error) with statements that fail as a whole (E9% = 1 / Z9%) inserted at the end of blocks and at random places under ON ERROR RESUME NEXT: same output, normal end and the same stack depths at the end as the program without them. Non-trivial = distinct event sequences.",
     );
 }
